@@ -206,6 +206,16 @@ def _pert_mode(c):
     return errs(*conds)
 
 
+def _pert_range_overflow(c, bits):
+    """max - min is not representable (both finite): the stored `range` is +inf — a distinct, named corner of the domain."""
+    from axioms import F32_MAX, F64_MAX
+    mn, mx = c["min"], c["max"]
+    fmax = F32_MAX if bits == 32 else F64_MAX
+    if mn.lo is None or mx.lo is None or mn.hi is None or mx.hi is None:
+        return ""
+    return "range-overflow" if mx.lo - mn.hi > fmax else ""
+
+
 def _hyper_new(c):
     # ProbabilityTooLarge: "`population_with_feature > total_population_size`."  SampleSizeTooLarge: "`sample_size > total_population_size`."
     # PopulationTooLarge: numeric underflow (unspecified when the two documented conditions are false)
@@ -262,7 +272,7 @@ SPEC = [
     dict(path="zeta::Zeta::<F>::new", args=[("s", F)], expect=_zeta_new, cuts={"s": [1.0]}),
     dict(path="zipf::Zipf::<F>::new", args=[("n", F), ("s", F)], expect=_zipf_new, cuts={"n": [1.0], "s": [1.0]}),
     dict(path="triangular::Triangular::<F>::new", args=[("min", F), ("max", F), ("mode", F)], expect=_triangular_new, ordered=("min", "max", "mode")),
-    dict(path="pert::PertBuilder::<F>::with_mode", quick_consts=1, args=[("min", F), ("max", F), ("shape", F), ("mode", F)], expect=_pert_mode, ordered=("min", "max", "mode"),
+    dict(path="pert::PertBuilder::<F>::with_mode", quick_consts=1, args=[("min", F), ("max", F), ("shape", F), ("mode", F)], expect=_pert_mode, tag=_pert_range_overflow, ordered=("min", "max", "mode"),
          pipeline=[("pert::Pert::<F>::new", ["min", "max"]), ("pert::PertBuilder::<F>::with_shape", ["$prev", "shape"]), ("pert::PertBuilder::<F>::with_mode", ["$prev", "mode"])]),
     dict(path="pert::PertBuilder::<F>::with_mean", quick_consts=0, args=[("min", F), ("max", F), ("shape", F), ("mean", F)], expect=lambda c: None, ordered=("min", "max", "mean"),
          pipeline=[("pert::Pert::<F>::new", ["min", "max"]), ("pert::PertBuilder::<F>::with_shape", ["$prev", "shape"]), ("pert::PertBuilder::<F>::with_mean", ["$prev", "mean"])]),
